@@ -59,7 +59,7 @@ Definition sx_Q (q : Q) : sx :=
 
 (* Brent fuel used when the model is run: enough for every denominator the
    check sends (period and pre-period are below den), capped *)
-Definition run_fuel (den : N) : nat := N.to_nat (N.min (3 * den + 8) 400000).
+Definition run_fuel (den : N) : nat := N.to_nat (N.min (3 * den + 8) 20000).
 
 (* structured literal on the wire:
    (base_tag base int frac exp)  int = () | (drun)   drun = ((v up) (s v up) ...)
